@@ -726,3 +726,8 @@ def seed_aliases(idx, cls, store, selfkey="self"):
                 break
             c = t
     return out
+
+
+def opt(idx, cls, name):
+    """[FuncInfo] of cls.name when it exists, else [] — for helpers that are listed as analysed but are not themselves an anchor"""
+    return [idx.method(cls, name)] if idx.has_cls(cls) and idx.has_method(cls, name) else []
